@@ -149,6 +149,16 @@ CHECKS["C16"] = ("exploration",
     "scikit-learn fits are judged.",
     "DESIGN.md §3 C16")
 
+CHECKS["C01"] = ("exploration",
+    "runtime history monitor with an executable model of the scikit-learn parameter contract (shadow parameter "
+    "store) over generated get_params/set_params/clone histories; every advertised key of every registered "
+    "configuration enumerated; behaviour differential after a parameter round trip",
+    "32 exported classes x 2-4 configurations (nested estimators, stacking lists of 1/2/12 members, kwargs stores): "
+    "each advertised key is set once on a fresh instance, histories of 4-12 operations are replayed against the "
+    "shadow store, clones are checked for equality / unfittedness / unshared sub-estimators, and two instances "
+    "with exchanged parameters are fitted on the same data.",
+    "DESIGN.md §3 C01")
+
 PENDING = {}
 
 
